@@ -138,12 +138,20 @@ def build(S, stack1=False):
     return arr
 
 
-def do_write(S, stack1=False):
+# "live object" histories: one PDBFile is kept across all cases of a pool item (the pool forks per
+# item), so every set_structure() meets an object that already holds the previous structure and has
+# served model=None reads; the specification judges each event from its own structure only, i.e. the
+# content of a file is a function of the last structure set (PdbFile.tla, "history independence").
+_LIVE = {"f": None}
+
+
+def do_write(S, stack1=False, live=False):
     """-> (oc, lines, text)."""
     from biotite.structure.io.pdb import PDBFile
 
     arr = build(S, stack1)
-    f = PDBFile()
+    f = (_LIVE["f"] or PDBFile()) if live else PDBFile()
+    _LIVE["f"] = None
     try:
         with warnings.catch_warnings():
             warnings.simplefilter("ignore")
@@ -152,6 +160,8 @@ def do_write(S, stack1=False):
         return "Rejected", [], "", f"{type(e).__name__}: {e}"[:200]
     out = io.StringIO()
     f.write(out)
+    if live:
+        _LIVE["f"] = f
     return "ok", [str(x) for x in f.lines], out.getvalue(), ""
 
 
@@ -177,8 +187,9 @@ def _xyz(coord2d):
 EMPTY_BACK = {"ok": False, "nmodels": 0, "atoms": [], "coords": [], "box": [], "bonds": [], "err": ""}
 
 
-def do_read(text, S):
-    """PDBFile.read + get_structure(all models, all extra fields, bonds when written)."""
+def do_read(text, S, live=False):
+    """PDBFile.read + get_structure(all models, all extra fields, bonds when written); in a live
+    history the object that was written is read instead of a re-parsed one."""
     import numpy as np
     import biotite.structure as struc
     from biotite.structure.io.pdb import PDBFile
@@ -186,7 +197,7 @@ def do_read(text, S):
     try:
         with warnings.catch_warnings():
             warnings.simplefilter("ignore")
-            f = PDBFile.read(io.StringIO(text))
+            f = _LIVE["f"] if live and _LIVE["f"] is not None else PDBFile.read(io.StringIO(text))
             st = f.get_structure(model=None, extra_fields=EXTRA, include_bonds=bool(S["bonds"]))
             nm = int(f.get_model_count())
             cc = f.get_coord()
@@ -236,13 +247,13 @@ def do_select(text, M):
     return sel
 
 
-def run_case(S, stack1=False):
+def run_case(S, stack1=False, live=False):
     """Execute one structure against the real code; returns the observed event."""
-    oc, lines, text, err = do_write(S, stack1)
+    oc, lines, text, err = do_write(S, stack1, live)
     ev = {"op": "file", "S": S, "oc": oc, "lines": lines, "err": err,
           "back": dict(EMPTY_BACK), "sel": []}
     if oc == "ok":
-        ev["back"] = do_read(text, S)
+        ev["back"] = do_read(text, S, live)
         try:
             ev["sel"] = do_select(text, len(S["models"]))
         except Exception as e:
@@ -360,7 +371,7 @@ def exec_cases(item):
     for case in item["cases"]:
         S, exp = case["S"], case["exp"]
         progress({"S": S, "kb": exp["kb"]})
-        ev = run_case(S, stack1=case.get("stack1", False))
+        ev = run_case(S, stack1=case.get("stack1", False), live=bool(item.get("live")))
         n += 1
         mm, dg = compare(S, exp, ev)
         mism += mm
@@ -423,7 +434,7 @@ def record_cases(item):
         else:
             S = gen_structure(rng, item.get("max_atoms", 12))
             progress({"S": S})
-            events.append(run_case(S, stack1=rng.random() < 0.3))
+            events.append(run_case(S, stack1=rng.random() < 0.3, live=bool(item.get("live"))))
     return {"events": events}
 
 
@@ -652,8 +663,8 @@ def run(ctx):
     hd, ad, fd = os.path.join(d, "h36"), os.path.join(d, "atom"), os.path.join(d, "file")
     nitems = 12 if quick else 160
     per = 25 if quick else 90
-    s3items = [{"seed": ctx.rng.randrange(1 << 30), "count": per, "max_atoms": 12 if k % 4 else 60}
-               for k in range(nitems)]
+    s3items = [{"seed": ctx.rng.randrange(1 << 30), "count": per, "max_atoms": 12 if k % 4 else 60,
+                "live": k % 2 == 1} for k in range(nitems)]
     import time
 
     with ThreadPoolExecutor(max_workers=4) as ex:
@@ -722,7 +733,10 @@ def run(ctx):
     # single-model structures are also handed over as a stack of depth 1
     extra = [dict(c, stack1=True) for c in cases if len(c["S"]["models"]) == 1][:: (4 if quick else 1)]
     allc = cases + extra
-    items = [{"cases": ch} for ch in _chunks(allc, 40)]
+    # every third item runs its cases as a history on one live PDBFile object
+    items = [{"cases": ch, "live": k % 3 == 2} for k, ch in enumerate(_chunks(allc, 40))]
+    ctx.cov["s2_live_object_items"] = sum(1 for it in items if it["live"])
+    ctx.cov["s3_live_object_items"] = sum(1 for it in s3items if it["live"])
     res = helpers.run_pool(ctx, "harness.drivers.c07:exec_cases", items, stage="S2", item_timeout=120)
     nexec = sum(r.get("n", 0) for r in res if r)
     if nexec != len(allc):
